@@ -469,6 +469,31 @@ def run_scheduler(spec):
 # manager level (also DEHB's bracket manager)
 
 
+def parent_walk_ends(mgr, b, level, slot_index):
+    """`trial_id_from_parent_slot` walks `while trial_id is None and bracket_id > 0`; for
+    offset 0 its step `num_bracket_offsets - rung_index` can be <= 0, then the real loop does
+    not terminate on an empty slot (or indexes `_brackets` from the end).  The walk is
+    repeated here with these cases detected, so that the harness only asks questions the
+    real code answers (value, None or IndexError)."""
+    bb = b
+    for _ in range(len(mgr._brackets) + 2):
+        if bb <= 0:
+            return True
+        delta, ri = mgr._parent_rung[(mgr._bracket_id_to_offset[bb], level)]
+        nb = bb - delta
+        if nb < 0:
+            return False
+        if nb >= len(mgr._brackets) or ri >= len(mgr._brackets[nb]._rungs):
+            return True  # IndexError
+        rung = mgr._brackets[nb]._rungs[ri][0]
+        if slot_index >= len(rung) or rung[slot_index][0] is not None:
+            return True
+        if delta <= 0:
+            return False
+        bb = nb
+    return False
+
+
 def run_manager(spec):
     """spec: {"ctor": {"kind": "hyperband"|"dehb", "mode", "bracket_rungs" | "rungs_first"+"num_brackets"},
               "seed", "max_events", "style", "p_fail", "p_bad", "n_open"}"""
@@ -600,14 +625,11 @@ def run_manager(spec):
                 f = lambda: {"trial": tid_json(mgr.top_of_previous_rung(b, inp["pos"]))}
             elif q == "parent":
                 off = mgr._bracket_id_to_offset[b]
-                # only levels whose parent rung lies in an earlier bracket: for offset 0 and
-                # rung_index >= num_bracket_offsets the real loop does not advance (bracket_delta
-                # <= 0, it can hang) — see the report; such queries are not made
-                lvs = [l for _, l in mgr.bracket_rungs[off] if mgr._parent_rung[(off, l)][0] >= 1]
-                if not lvs:
+                lv = rng.choice([l for _, l in mgr.bracket_rungs[off]])
+                si = rng.randrange(3)
+                if not parent_walk_ends(mgr, b, lv, si):
                     continue
-                lv = rng.choice(lvs)
-                inp = {"op": "parent_slot", "bracket": b, "level": int(lv), "slot_index": rng.randrange(3)}
+                inp = {"op": "parent_slot", "bracket": b, "level": int(lv), "slot_index": si}
                 f = lambda: {"trial": tid_json(mgr.trial_id_from_parent_slot(b, inp["level"], inp["slot_index"]))}
             else:
                 inp = {"op": "size_of_current_rung", "bracket": b}
